@@ -132,6 +132,11 @@ def jws_table(prog):
 
 def check(ctx):
     prog = ctx.prog
+    # the `kid` of a request is the account URL as it survives a restart, and a key roll-over records the new key's fingerprint (else the
+    # next request is signed with / rolled over from the wrong key): C11's persistence and bookkeeping rules
+    from . import c11 as _c11
+    ctx.shared("C11", _c11.persistence)
+    ctx.shared("C11", _c11.must_follow)
     W1 = ctx.rule("W1", "wire shape of the JWS envelope and protected header (RFC 8555 6.2: alg, nonce, url, exactly one of jwk/kid) and of the account/key-change payloads, as written by the derived Serialize impls")
     from .wire_shape import check_shapes
     from .wire_shape import check_read_shapes
